@@ -179,6 +179,11 @@ type pushPollTransaction struct {
 	TransactionID string
 }
 
+type userProfileLock struct {
+	mutex sync.Mutex
+	refs  int
+}
+
 type totpRateLimitInfo struct {
 	lastCheckTime         time.Time
 	failCount             uint32
@@ -222,6 +227,8 @@ type RuntimeState struct {
 	webAuthn                     *webauthn.WebAuthn
 	totpLocalRateLimit           map[string]totpRateLimitInfo
 	totpLocalTateLimitMutex      sync.Mutex
+	profileLocksMutex            sync.Mutex
+	profileLocks                 map[string]*userProfileLock
 	logger                       log.DebugLogger
 }
 
@@ -1328,8 +1335,10 @@ func (state *RuntimeState) loginHandler(w http.ResponseWriter,
 			}
 		}
 	}
+	unlockProfile := state.lockUserProfile(username)
 	profile, _, fromCache, err := state.LoadUserProfile(username)
 	if err != nil {
+		unlockProfile()
 		state.logger.Printf("error loading user profile err=%s", err)
 		state.writeFailureResponse(w, r, http.StatusInternalServerError,
 			"cannot load user profile")
@@ -1338,6 +1347,7 @@ func (state *RuntimeState) loginHandler(w http.ResponseWriter,
 	if !fromCache {
 		state.trySelfServiceGenerateBootstrapOTP(username, profile)
 	}
+	unlockProfile()
 	userHasBootstrapOTP := len(state.userBootstrapOtpHash(profile,
 		fromCache)) > 0
 	// Compute the cert prefs
@@ -1706,6 +1716,7 @@ func (state *RuntimeState) u2fTokenManagerHandler(w http.ResponseWriter, r *http
 	}
 
 	//Do a redirect
+	defer state.lockUserProfile(assumedUser)()
 	profile, _, fromCache, err := state.LoadUserProfile(assumedUser)
 	if err != nil {
 		logger.Printf("loading profile error: %v", err)
